@@ -4,13 +4,15 @@ cd /verif
 unset VERIF_EVIDENCE_DIR
 rc=0
 for p in $(python3 -c "import json;print(' '.join(c['property_id'] for c in json.load(open('/verif/MANIFEST.json'))['checks']))"); do
-  ./check $p --tier quick $1 2>&1 | tail -1
-  [ ${PIPESTATUS[0]} -eq 0 ] || rc=1
+  out=$(./check $p --tier quick $1 2>&1); ec=$?
+  echo "$out" | tail -1
+  if [ $ec -ne 0 ]; then rc=1; echo "  !! $p exit=$ec"; echo "$out" | grep -E "tool error|VIOLATION|undecided|vacuity|load" | head -5 | sed 's/^/  !! /'; fi
   python3 - $p <<'PY' || rc=1
 import json,sys
 e=json.load(open('/verif/evidence/%s.json'%sys.argv[1]))
 c=e['coverage']
-assert c['obligations']==c['discharged'] and e['violations']==0, (sys.argv[1], c['obligations'], c['discharged'])
+assert c['obligations']==c['discharged'] and e['violations']==0 and c['tool_errors']==0, (sys.argv[1], c['obligations'], c['discharged'], c['tool_errors'])
 PY
 done
+[ $rc -eq 0 ] && echo "ALL GREEN" || echo "NOT GREEN"
 exit $rc
